@@ -18,7 +18,7 @@ Definition frontend (fl : flags) (builtins : list str) (fuel : nat) (text : str)
     match consume_rules_with_spans fl text fuel forest with
     | OPanic => FPanic | OFuel => FFuel | OErrs l => FErrors l
     | ODone rules =>
-      match validate_ast rules fuel builtins (extras fl) with
+      match validate_ast rules fuel (fix_lr fl) (fix_tag fl) builtins (extras fl) with
       | VPanic => FPanic | VFuel => FFuel
       | VOk (e :: errs) _ => FErrors (e :: errs)
       | VOk [] _ =>
@@ -31,8 +31,8 @@ Definition frontend (fl : flags) (builtins : list str) (fuel : nat) (text : str)
   end.
 
 (* the number of steps of the recursive predicates of validate_ast on the rules that consume_rules produced *)
-Definition validate_steps (rules : list prule) (fuel : nat) (builtins : list str) (ex : bool) : option nat :=
-  match validate_ast rules fuel builtins ex with VOk _ n => Some n | _ => None end.
+Definition validate_steps (rules : list prule) (fuel : nat) (lrf tgf : bool) (builtins : list str) (ex : bool) : option nat :=
+  match validate_ast rules fuel lrf tgf builtins ex with VOk _ n => Some n | _ => None end.
 
 (* pest_generator::docs::consume: false = panic (`pair.into_inner().next().unwrap()` on a grammar_doc) *)
 Fixpoint docs_consume (f : list tok) : bool :=
@@ -41,8 +41,12 @@ Fixpoint docs_consume (f : list tok) : bool :=
   | t :: f' => if is_rule r_grammar_doc t then match tkids t with [] => false | _ :: _ => docs_consume f' end else docs_consume f'
   end.
 
-(* a fuel that is enough for every text (nesting depth, number of rules, expression sizes are all below the length) *)
-Definition default_fuel (text : str) (forest : list tok) : nat := 2 * blen text + fdepth forest + 16.
+(* the fuel the runner uses: above the nesting depth and the number of rules (which is what consume and validate need,
+   FuelProofs.v) and above twice the length of the text (expression sizes for the top-down optimizer passes) *)
+Definition default_fuel (text : str) (forest : list tok) : nat := 2 * blen text + fdepth forest + length forest + 16.
 
-Definition shipped (ex : bool) : flags := {| extras := ex; fix_escape := false; fix_peek := false; fix_choice := false; fix_unroll := false |}.
-Definition repaired (ex : bool) : flags := {| extras := ex; fix_escape := true; fix_peek := true; fix_choice := true; fix_unroll := true |}.
+(* ex = grammar-extras; lr, tg = the two C06 repairs present in the tree or not *)
+Definition shipped (ex lr tg : bool) : flags :=
+  {| extras := ex; fix_escape := false; fix_peek := false; fix_choice := false; fix_unroll := false; fix_lr := lr; fix_tag := tg |}.
+Definition repaired (ex lr tg : bool) : flags :=
+  {| extras := ex; fix_escape := true; fix_peek := true; fix_choice := true; fix_unroll := true; fix_lr := lr; fix_tag := tg |}.
